@@ -1,7 +1,6 @@
 #![allow(non_camel_case_types, non_snake_case, dead_code)]
 #[tarpc::service]
-pub trait Rej80 {
-    async fn r#fn(a0: i32, a1: i32);
-    async fn new() -> String;
+pub trait Rej49 {
+    async fn serve(a0: i32, a1: i32) -> String;
 }
 fn main() {}
